@@ -2874,6 +2874,11 @@ emit_member_table(arg_t *arg, asn1p_expr_t *expr, asn1c_ioc_table_and_objset_t *
 	&& expr->tag.tag_class) {
 		if(expr->tag.tag_mode == TM_IMPLICIT)
 		OUT("-1,\t/* IMPLICIT tag at current level */\n");
+		else if(expr->expr_type == ASN_BASIC_ENUMERATED
+			|| (expr->expr_type == ASN_BASIC_INTEGER
+			    && asn1c_type_fits_long(arg, expr) == FL_FITS_UNSIGN))
+		/* The member's own descriptor (see below) has this tag */
+		OUT("0,\t/* EXPLICIT tag is in the tags of the type */\n");
 		else
 		OUT("+1,\t/* EXPLICIT tag at current level */\n");
 	} else {
